@@ -43,11 +43,11 @@ STUB = ["choice of the running worker thread (baton scheduler, line events in mo
 ASSUMPTIONS = ["the eval'd equation lambdas and numpy/pandas run atomically between two pre-emption points",
                "double evaluation of an equation is allowed; a second VALUE for one (element, time) is not"]
 FAULT_KINDS = ["preemption"]
-PROBES = ["edits_on_a_registered_scenario_model", "first_equation_after_dependants_were_read", "failed_modelling_call", "scenario_constant_then_scenario_reset", "long_stochastic_run", "edit_landed_inside_a_run", "stochastic_scenario_run_repeatedly", "read_via_memoize", "read_via_call", "read_via_plot", "decimal_dt_race", "edit_after_dependant_read", "initial_value_edit", "preempted_between_check_and_store", "fresh_called_twice_for_one_time",
+PROBES = ["agent_callback_reads_elements_during_a_reset", "element_of_an_arrayed_constant_edited", "edits_on_a_registered_scenario_model", "first_equation_after_dependants_were_read", "failed_modelling_call", "scenario_constant_then_scenario_reset", "long_stochastic_run", "edit_landed_inside_a_run", "stochastic_scenario_run_repeatedly", "read_via_memoize", "read_via_call", "read_via_plot", "decimal_dt_race", "edit_after_dependant_read", "initial_value_edit", "preempted_between_check_and_store", "fresh_called_twice_for_one_time",
           "run_repeated", "scenario_reset_cache"]
 EXHAUSTIVE = {"quick": False, "thorough": False}
 
-ELEMS = ["k1", "k2", "c1", "c2", "f1", "b1", "s1", "s2", "c3"]
+ELEMS = ["k1", "k2", "c1", "c2", "f1", "b1", "s1", "s2", "c3", "c4"]
 NTPL = {"c1": 3, "c2": 3, "f1": 3, "b1": 3, "s1": 3, "s2": 3}
 INIT_CHOICES = [0.0, 2.0, 100.0, "k1", "k2"]
 
@@ -73,7 +73,7 @@ def _eq(m, name, idx):
     raise ValueError(name)
 
 
-DEFS0 = {"k1": 1.0, "k2": 0.5, "c1": 0, "c2": 0, "f1": 0, "b1": 0, "s1": 0, "s2": 2, "s1_init": 0.0, "s2_init": 2.0}
+DEFS0 = {"kv0": 1.0, "kv1": 2.0, "k1": 1.0, "k2": 0.5, "c1": 0, "c2": 0, "f1": 0, "b1": 0, "s1": 0, "s2": 2, "s1_init": 0.0, "s2_init": 2.0}
 
 
 def build(defs, start, stop, dt):
@@ -101,6 +101,11 @@ def build(defs, start, stop, dt):
     taxed = m.function("taxed", lambda model, t, x: x * (1.0 + model.evaluate_equation("k2", t)))
     m.converter("c3")
     m.converters["c3"].equation = taxed(m.converters["c1"])
+    # c4 aggregates an ARRAYED constant: it depends on the vector's elements, which can be edited one by one
+    kv = m.constant("kv")
+    kv.setup_vector(2, [float(defs.get("kv0", 1.0)), float(defs.get("kv1", 2.0))])
+    m.converter("c4")
+    m.converters["c4"].equation = kv.arr_sum() + m.constants["k1"]
     return m
 
 
@@ -187,6 +192,8 @@ def generate(spec):
             # also values that differ from each other by less than any "reasonable" tolerance: a different number is a different number
             ops.append({"op": "set_constant", "elem": rng.choice(["k1", "k2"]),
                         "value": rng.choice([0.0, 0.5, 1.0, 3.0, -2.0, 2e-10, 8e-10, 1000.0, 1000.0000004, 0.5000000000000001])})
+        elif r < 0.54:
+            ops.append({"op": "set_vector_element", "idx": rng.choice([0, 1]), "value": rng.choice([0.0, 0.5, 3.0, 10.0, -2.0])})
         elif r < 0.72:
             ops.append({"op": "evaluate", "elem": rng.choice(ELEMS), "t_index": rng.randrange(0, 7)})
         elif r < 0.83:
@@ -223,8 +230,11 @@ def generate(spec):
     if through_bptk:
         # the model is registered with bptk, the edits are made on the registered scenario's own model and "run" is
         # bptk.run_scenarios (no scenario settings in play: the scenario's constants stay empty)
-        ops = [o for o in ops if o["op"] != "scenario_constant"]
+        # (the handle of an arrayed element of a scenario's clone is not arrayed: element-wise edits stay with the plain histories)
+        ops = [o for o in ops if o["op"] not in ("scenario_constant", "set_vector_element")]
     return {"property": PROPERTY, "kind": "edit", "start": start, "stop": stop, "dt": dt, "ops": ops, "late": late, "bptk": through_bptk,
+            # a hybrid model: an agent whose documented reset_cache() callback reads SD elements (a "soft reset" that re-reads its budget)
+            "observer": (not through_bptk) and rng.random() < 0.25,
             # which reading API the history and the oracle use (they differ in which bookkeeping they touch), and whether
             # every element is observed after every operation or only at the end (observation is itself an operation)
             "via": rng.choice(["evaluate_equation", "memoize", "call", "plot"]), "observe": rng.choice(["each", "each", "end"]),
@@ -415,7 +425,7 @@ def _execute_edit(case):
         res.probe("first_equation_after_dependants_were_read")
     live = build(defs, start, stop, dt)
     b = None
-    if case.get("bptk") and not any(o["op"] == "scenario_constant" for o in case["ops"]):
+    if case.get("bptk") and not any(o["op"] in ("scenario_constant", "set_vector_element") for o in case["ops"]):
         import BPTK_Py
         from worlds.server_world import configure_bptk_globals
         configure_bptk_globals()
@@ -427,6 +437,23 @@ def _execute_edit(case):
         live = scen.model
     else:
         scen = SimulationScenario(dictionary={}, name="s", model=live, scenario_manager_name="m")
+    if case.get("observer") and b is None:
+        from BPTK_Py import Agent
+        res.probe("agent_callback_reads_elements_during_a_reset")
+
+        class Observer(Agent):
+            def initialize(self):
+                self.state = "watching"
+
+            def reset_cache(self):
+                for n_ in ("c2", "s1", "c3", "c4", "s2"):
+                    for t_ in grid[:3]:
+                        try:
+                            self.model.evaluate_equation(n_, t_)
+                        except Exception:
+                            pass
+        live.register_agent_factory("observer", lambda agent_id, model, properties: Observer(agent_id, model, properties, "observer"))
+        live.create_agent("observer", {})
     read_since_edit = set()
     pol = make_policy(case.get("sched") or {"kind": "default"})
 
@@ -540,6 +567,13 @@ def _execute_edit(case):
             defs[op["elem"] + "_init"] = op["value"]
             v = op["value"]
             live.stocks[op["elem"]].initial_value = live.constants[v] if isinstance(v, str) else float(v)
+            last_edit[0] = op
+        elif kind == "set_vector_element":
+            if read_since_edit:
+                res.probe("edit_after_dependant_read")
+            res.probe("element_of_an_arrayed_constant_edited")
+            defs["kv%d" % op["idx"]] = op["value"]
+            live.constants["kv"][op["idx"]] = float(op["value"])
             last_edit[0] = op
         elif kind == "set_constant":
             if read_since_edit:
